@@ -35,6 +35,9 @@ ERRORS = {
     "undef-operand": ("lda.w undefined_sym", "node", None),
     "undef-operand-expr": ("sta.l undefined_sym + 1,x", "node", None),
     "undef-data": (".dw 1, undefined_sym", "node", None),
+    # a data list continued over several lines: the statement starts at its keyword
+    "undef-data-multiline": (".dw 1,\n2,\nundefined_sym", "node", None),
+    "undef-data-multiline-mid": (".db 1,\nundefined_sym + 1,\n3", "node", None),
     "bad-suffix": ("lda.q 0x10", "scan", [4]),
     "bad-suffix-eol": ("lda.", "scan", [4]),
     "bad-index": ("lda 0x10,q", "scan", [9]),
@@ -90,7 +93,7 @@ def jobs(tier, seed):
     # the construct is expanded elsewhere: macro body, loop body)
     for bi in (0, 2):
         for pt in insertion_points(BASES[bi])[:2] + insertion_points(BASES[bi])[-1:]:
-            for ek in ("undef-operand", "undef-data", "bad-index", "unterminated-string"):
+            for ek in ("undef-operand", "undef-data", "undef-data-multiline", "bad-index", "unterminated-string"):
                 for w in WRAPS:
                     for where in ("main", "included"):
                         out.append({"id": f"b{bi}/at{pt}/{ek}/in-{w}/{where}", "base": bi, "at": pt, "err": ek, "pre": "linecomment", "where": where, "n": n, "wrap": w})
@@ -242,7 +245,7 @@ def check(spec, cx, out):
     exp_line = sum(1 for x in is_nl if x)
     last_nl = max([i for i, x in enumerate(is_nl) if x], default=-1)
     line_start = last_nl + 1
-    exp_text = chars[line_start: idx] + list(chars[idx: idx + len(stmt)])
+    exp_text = chars[line_start: idx] + list(chars[idx: idx + len(stmt.split("\n")[0])])
     col0 = idx - line_start
     if out[0] in ("no-error", "other-exception"):
         return [("error-reported-as-node-or-scan-error", z3.BoolVal(False))]
